@@ -945,7 +945,7 @@ func (view *View) replace(ctx context.Context, flags *option.Flags, fields []par
 			return 0, NewReplaceKeyNotSetError(keys[idx])
 		}
 	}
-	updateIndices := make([]int, 0, len(fieldIndices)-len(keyIndices))
+	updateIndices := make([]int, 0, len(fieldIndices))
 	for _, i := range fieldIndices {
 		if _, ok := keyIndicesMap[uint(i)]; !ok {
 			updateIndices = append(updateIndices, i)
